@@ -51,6 +51,7 @@ def op? (x : Sexp) : Option Op :=
   | .list [.atom "load", p] => strs? p >>= fun ps => some (.load ps)
   | .list [.atom "store", p, a] => do let ps ← strs? p; let v ← arg? a; pure (.store ps v)
   | .list [.atom "del", p] => strs? p >>= fun ps => some (.delStmt ps)
+  | .list [.atom "aug", p, .atom sfx] => strs? p >>= fun ps => some (.aug ps sfx)
   | .list [.atom "get", p] => strs? p >>= fun ps => some (.get ps)
   | .list [.atom "set", p, a, na, kw] => do
     let ps ← strs? p
@@ -96,7 +97,7 @@ def storeS (st : Store) : Sexp := .list (st.map (fun p => .list [entS p.1, .atom
 
 /-- the names a case mentions: entities and attribute names (the finite window the spec's functions are printed on) -/
 def opEnts : Op → List Ent
-  | .load (d :: n :: _) | .store (d :: n :: _) _ | .delStmt (d :: n :: _) | .get (d :: n :: _)
+  | .load (d :: n :: _) | .store (d :: n :: _) _ | .delStmt (d :: n :: _) | .get (d :: n :: _) | .aug (d :: n :: _) _
   | .set (d :: n :: _) _ _ _ | .setattr (d :: n :: _) _ | .delete (d :: n :: _) | .exist (d :: n :: _)
   | .getattr (d :: n :: _) => [(d, n)]
   | .extSet e _ _ | .extRemove e => [e]
